@@ -166,6 +166,223 @@ def rule_H1(ctx, prog, label, rule='H1'):
     return rr
 
 
+def _definite(stmt, D, tracked, report):
+    """Java-style definite assignment over the statement tree of one loop iteration.
+    D: set of tracked names certainly written on every path so far (None = unreachable).  Returns the set after stmt."""
+    if stmt is None or D is None:
+        return D
+    k = stmt.kind
+
+    def expr(e, D):
+        """check reads in evaluation order (approximated: operands before the assignment takes effect)"""
+        if e is None:
+            return D
+        e0 = strip(e, casts=True)
+        if e0 is None:
+            return D
+        if e0.kind == 'BinaryOperator' and e0.op == '=':
+            l = strip(e0.kids[0], casts=True)
+            D = expr(e0.kids[1], D)
+            base = l
+            sub = []
+            while base.kind == 'ArraySubscriptExpr':
+                sub.append(base.kids[1])
+                base = strip(base.kids[0], casts=True)
+            for sx in sub:
+                D = expr(sx, D)
+            if base.kind == 'DeclRefExpr' and base.ref in tracked:
+                return D | {base.ref}
+            if base.kind != 'DeclRefExpr':
+                D = expr(l, D)
+            return D
+        if e0.kind in ('ConditionalOperator',):
+            D1 = expr(e0.kids[0], D)
+            a = expr(e0.kids[1], D1)
+            b = expr(e0.kids[2], D1)
+            return a & b
+        if e0.kind == 'BinaryOperator' and e0.op in ('&&', '||'):
+            D1 = expr(e0.kids[0], D)
+            expr(e0.kids[1], D1)
+            return D1
+        if e0.kind == 'DeclRefExpr':
+            if e0.ref in tracked and e0.ref not in D:
+                report(e0)
+            return D
+        if e0.kind == 'CallExpr' and callee_name(e0) == 'm4ri_die':
+            return None
+        for c in e0.kids:
+            D = expr(c, D)
+            if D is None:
+                return None
+        return D
+
+    if k == 'CompoundStmt':
+        for c in stmt.kids:
+            D = _definite(c, D, tracked, report)
+        return D
+    if k == 'DeclStmt':
+        for v in stmt.kids:
+            if v.kind == 'VarDecl' and v.kids and v.init:
+                D = expr(v.kids[-1], D)
+        return D
+    if k == 'IfStmt':
+        D1 = expr(stmt.kids[0], D)
+        a = _definite(stmt.kids[1], D1, tracked, report)
+        b = _definite(stmt.kids[2], D1, tracked, report) if len(stmt.kids) > 2 else D1
+        if a is None:
+            return b
+        if b is None:
+            return a
+        return a & b
+    if k in ('ForStmt', 'WhileStmt', 'DoStmt'):
+        if k == 'ForStmt':
+            init, _cv, cond, inc, body = stmt.kids
+            D = _definite(init, D, tracked, report) if init.kind != 'Null' else D
+            D1 = expr(cond, D) if cond.kind != 'Null' else D
+            D2 = _definite(body, D1, tracked, report)
+            if inc.kind != 'Null' and D2 is not None:
+                expr(inc, D2)
+            return D1
+        if k == 'WhileStmt':
+            D1 = expr(stmt.kids[0], D)
+            _definite(stmt.kids[-1], D1, tracked, report)
+            return D1
+        D2 = _definite(stmt.kids[0], D, tracked, report)
+        return expr(stmt.kids[1], D2) if D2 is not None else None
+    if k == 'SwitchStmt':
+        D1 = expr(stmt.kids[0], D)
+        body = stmt.kids[-1]
+        exits = []
+        cur = None
+        has_default = False
+
+        def run(st, cur):
+            # unwrap nested labels: case 8: case 7: stmt
+            while st.kind in ('CaseStmt', 'DefaultStmt'):
+                if st.kind == 'DefaultStmt':
+                    nonlocal_default[0] = True
+                cur = D1 if cur is None else (cur & D1)
+                st = st.kids[-1]
+            if cur is None:
+                return None
+            if st.kind == 'BreakStmt':
+                exits.append(cur)
+                return None
+            return _definite(st, cur, tracked, report)
+        nonlocal_default = [False]
+        for st in (body.kids if body.kind == 'CompoundStmt' else [body]):
+            cur = run(st, cur)
+        if cur is not None:
+            exits.append(cur)
+        if not nonlocal_default[0]:
+            exits.append(D1)
+        if not exits:
+            return None
+        out = exits[0]
+        for x in exits[1:]:
+            out = out & x
+        return out
+    if k in ('BreakStmt', 'ContinueStmt', 'ReturnStmt', 'GotoStmt'):
+        return None if k != 'ContinueStmt' else None
+    if k in ('NullStmt', 'Null'):
+        return D
+    if k in ('CaseStmt', 'DefaultStmt', 'LabelStmt'):
+        return _definite(stmt.kids[-1], D, tracked, report)
+    return expr(stmt, D)
+
+
+def rule_H3(ctx, prog, label, rule='H3'):
+    """parallel for: iterations are independent of the schedule - a private/firstprivate variable that the body writes is
+    written before it is read in the same iteration (no value is carried from whichever iteration the thread ran before)."""
+    rr = RuleResult(rule, 'parallel for: no private or firstprivate variable carries a value from one iteration to the next '
+                          '(every read in the body is preceded by a write in the same iteration on all paths)')
+    for f in sorted(prog.all_funcs(), key=lambda f: (f.file, f.line)):
+        dirs = [n for n in f.body.walk() if n.kind == 'OMPParallelForDirective']
+        for d in dirs:
+            loop = _body_of(d)
+            if loop is None or loop.kind != 'ForStmt':
+                raise AnalysisBroken('H3: parallel for without a for statement in %s' % f.name)
+            text = pragma_text(d)
+            priv = clause_vars(text, 'private') | clause_vars(text, 'firstprivate') | clause_vars(text, 'lastprivate')
+            body = loop.kids[4]
+            written = set()
+            for n in body.walk():
+                lhs = None
+                if (n.kind == 'BinaryOperator' and n.op == '=') or n.kind == 'CompoundAssignOperator' or (n.kind == 'UnaryOperator' and n.op in ('++', '--')):
+                    base = strip(n.kids[0], casts=True)
+                    while base.kind == 'ArraySubscriptExpr':
+                        base = strip(base.kids[0], casts=True)
+                    if base.kind == 'DeclRefExpr':
+                        written.add(base.ref)
+                if n.kind == 'UnaryOperator' and n.op == '&':
+                    base = strip(n.kids[0], casts=True)
+                    if base.kind == 'DeclRefExpr':
+                        written.add(base.ref)
+            tracked = frozenset(v for v in priv if v in written)
+            rr.instances += 1
+            bad = []
+            _definite(body, frozenset(), tracked, lambda e: bad.append(e))
+            names = sorted(set(e.ref for e in bad))
+            rr.ob(not bad, dict(function=f.name, pragma=text.strip()[:90], written_private=sorted(tracked)),
+                  Finding(rule, '%s|%s|carried|%s' % (rule, f.name, ','.join(names)), (bad[0].loc if bad else d.loc), f.name,
+                          'iterations of `%s` are not independent: `%s` is read before it is written in the iteration, so its value comes from '
+                          'whichever iteration the same thread ran before (depends on team size and schedule)' % (text.strip()[:60], names[0] if names else ''), {}, label))
+    rr.require_floor(7, 'parallel for regions')
+    return rr
+
+
+def rule_H4(ctx, prog, label, rule='H4'):
+    """plain `omp parallel` regions with hand-rolled work distribution: a loop that starts at omp_get_thread_num() must
+    stride by omp_get_num_threads() evaluated inside the region (the size of the executing team)."""
+    rr = RuleResult(rule, 'hand-rolled work sharing in plain parallel regions strides by the size of the executing team '
+                          '(omp_get_num_threads() inside the region), not by a value fixed outside it')
+    for f in sorted(prog.all_funcs(), key=lambda f: (f.file, f.line)):
+        dirs = [n for n in f.body.walk() if n.kind == 'OMPParallelDirective']
+        if not dirs:
+            continue
+        fs = FuncSym(f)
+        for d in dirs:
+            region = _body_of(d)
+            if region is None:
+                raise AnalysisBroken('H4: parallel region without a body in %s' % f.name)
+            inside = set(n.uid for n in region.walk())
+            local_ids = set(n.id for n in region.walk() if n.kind == 'VarDecl')
+
+            def mentions(e, fn, depth=0):
+                """does e evaluate fn() *inside the region* (directly or through a region-local single-definition variable)?"""
+                for x in e.walk():
+                    if x.kind == 'CallExpr' and callee_name(x) == fn and x.uid in inside:
+                        return True
+                    if x.kind == 'DeclRefExpr' and x.refid in local_ids and depth < 3:
+                        d0 = fs.single_def(x.refid)
+                        if d0 is not None and mentions(d0, fn, depth + 1):
+                            return True
+                return False
+            loops = []
+            for lp in region.walk():
+                if lp.kind != 'ForStmt':
+                    continue
+                init = lp.kids[0]
+                iv = None
+                if init.kind == 'DeclStmt' and init.kids and init.kids[0].kids:
+                    iv = init.kids[0].kids[-1]
+                elif init.kind == 'BinaryOperator' and init.op == '=':
+                    iv = init.kids[1]
+                if iv is not None and mentions(iv, 'omp_get_thread_num'):
+                    loops.append(lp)
+            if not loops:
+                raise AnalysisBroken('H4: plain parallel region in %s at %s distributes work in a way this engine does not model' % (f.name, d.loc))
+            for lp in loops:
+                rr.instances += 1
+                inc = strip(lp.kids[3])
+                ok = inc is not None and inc.kind == 'CompoundAssignOperator' and inc.op == '+=' and mentions(inc.kids[1], 'omp_get_num_threads')
+                rr.ob(ok, dict(function=f.name, loop=pp(lp.kids[3])[:40]),
+                      Finding(rule, '%s|%s|stride' % (rule, f.name), lp.loc, f.name,
+                              'work-sharing loop starts at omp_get_thread_num() but advances by `%s`, which is not omp_get_num_threads() of the executing team: '
+                              'with a smaller team (nested region, thread limit) some shares are never computed' % pp(lp.kids[3])[:40], {}, label))
+    return rr
+
+
 def _windows(f, fs):
     """local window variables: name -> (parent name, lowr, lowc, highr, highc) as Lin"""
     out = {}
